@@ -1,7 +1,846 @@
-//! Model-backed runs for the mlpc scheme: `run(ctx, prop)` is called for every property; handle the
-//! properties this scheme takes part in and return immediately for the others.
+//! Model-backed runs for the multilinear PST scheme (`multilinear_pc`): `run(ctx, prop)` is called for
+//! every property; properties the scheme has nothing to add to return immediately.
+//! Case ids are `<prop>/mlpc/…`.
+#[path = "mlpc.rs"]
+pub mod mlpc;
+
+use crate::common::*;
+use crate::wire::{self, Req};
 use crate::Ctx;
+use ark_bls12_381::{Bls12_381, Fr};
+use ark_ec::{AffineRepr, CurveGroup};
+use ark_ff::{UniformRand, Zero};
+use ark_poly::{DenseMultilinearExtension, MultilinearExtension};
+use ark_serialize::{CanonicalDeserialize, CanonicalSerialize, Compress, Validate};
+use mlpc::*;
 
 pub fn run(ctx: &mut Ctx, prop: &str) {
-    let _ = (ctx, prop);
+    match prop {
+        "C01" => c01(ctx),
+        "C02" => mutation_run(ctx, "C02", Which::Statement),
+        "C03" => mutation_run(ctx, "C03", Which::Proof),
+        "C10" => mutation_run(ctx, "C10", Which::All),
+        "C08" => c08(ctx),
+        "C09" => c09(ctx),
+        "C12" => c12(ctx),
+        "C17" => c17(ctx),
+        "C19" => c19(ctx),
+        _ => return,
+    }
+    ctx.flush_model(&format!("{}-mlpc", prop));
 }
+
+fn max_nv(ctx: &Ctx) -> usize {
+    if ctx.thorough {
+        10
+    } else {
+        6
+    }
+}
+
+/// sizes of case `i`: the first cases walk through every `nv`, the rest are random
+fn sizes(rng: &mut Rng, i: usize, max: usize) -> (usize, usize) {
+    if i < max {
+        (max.min(i + 1 + range(rng, 0, 1)), i + 1)
+    } else {
+        let nv_max = range(rng, 1, max);
+        (nv_max, range(rng, 1, nv_max))
+    }
+}
+
+fn new_transcript(ctx: &mut Ctx, rng: &mut Rng, id: &str, i: usize, max: usize) -> Option<Transcript> {
+    let (nv_max, nv) = sizes(rng, i, max);
+    match honest(rng, nv_max, nv) {
+        Ok(t) => Some(t),
+        Err(e) => {
+            ctx.rep.expect_fail(
+                id,
+                "mlpc/in-domain-refused",
+                &format!("trim / commit / open aborted on an in-domain request (nv_max={}, nv={}): {}", nv_max, nv, e),
+                format!("# scheme: mlpc\n# case: {}\n# seed: {}\n# nv_max={} nv={}\n# {}\n# rerun: .build/cargo/debug/pcv-harness {} --seed {} --only {}\n",
+                    id, ctx.seed, nv_max, nv, e, id.split('/').next().unwrap_or(""), ctx.seed, id),
+            );
+            None
+        }
+    }
+}
+
+/// scalars of commitment and proof, or an expectation failure (the commitment / a proof element is
+/// not the trapdoor-defined value)
+fn checked_scalars(ctx: &mut Ctx, id: &str, t: &Transcript) -> Option<(Fr, Vec<Fr>)> {
+    let s = scalars(t);
+    if s.is_none() {
+        ctx.rep.expect_fail(
+            id,
+            "mlpc/not-key-defined",
+            "commitment != g·f~(t) or a proof element != h·q~_i(t_{>i})",
+            t.replay(id, ctx.seed, "commitment or proof element differs from the trapdoor-defined value"),
+        );
+    }
+    s
+}
+
+// ------------------------------------------------------------------------------------------------
+// C01
+// ------------------------------------------------------------------------------------------------
+
+fn c01(ctx: &mut Ctx) {
+    let n = ctx.n(30, 300);
+    let max = max_nv(ctx);
+    for i in 0..n {
+        let id = format!("C01/mlpc/{}", i);
+        if !ctx.selected(&id) {
+            continue;
+        }
+        let mut rng = rng_for(ctx.seed, "C01/mlpc", i as u64);
+        let t = match new_transcript(ctx, &mut rng, &id, i, max) {
+            Some(t) => t,
+            None => continue,
+        };
+        ctx.rep.count(&format!("mlpc/poly-{}", t.kind));
+        ctx.rep.count(&format!("mlpc/nv-{}", t.nv()));
+        ask_honest(ctx, &id, &t);
+        let out = check_impl(&t.vk, &t.comm, &t.point, t.v, &t.proof);
+        let acc = accepted(&out);
+        if let Some((c, ps)) = checked_scalars(ctx, &id, &t) {
+            ctx.ses.ask(&id, ScalarClaim::of(&t, c, &ps).req(), out);
+        }
+        if !acc {
+            ctx.rep.expect_fail(
+                &id,
+                "mlpc/honest-rejected",
+                "honest proof of a true claim was not accepted",
+                t.replay(&id, ctx.seed, "MultilinearPC::check(honest) != true"),
+            );
+        }
+        ctx.rep.case(&t.desc(), Some(format!("mlpc/{}/{}/{}", t.trap.nv(), t.nv(), t.kind)));
+    }
+    // the same on library-made keys (real-setup mode): must-accept, commitment = naive key sum
+    let nr = ctx.n(6, 40);
+    for i in 0..nr {
+        let id = format!("C01/mlpc-real/{}", i);
+        if !ctx.selected(&id) {
+            continue;
+        }
+        let mut rng = rng_for(ctx.seed, "C01/mlpc-real", i as u64);
+        let (nv_max, nv) = sizes(&mut rng, i, max.min(8));
+        let res = real_setup(nv_max, &mut rng).and_then(|rs| {
+            let (ck, vk) = guarded(|| ML::trim(&rs.pp, nv))?;
+            let (poly, kind) = gen_poly(&mut rng, nv);
+            let point: Vec<Fr> = (0..nv).map(|_| Fr::rand(&mut rng)).collect();
+            let v = poly.evaluate(&point);
+            let comm = guarded(|| poly.commit(&ck))?;
+            let proof = guarded(|| poly.open(&ck, &point))?;
+            let b = guarded(|| ML::check(&vk, &comm, &point, v, &proof))?;
+            Ok((kind, b, proof.proofs.len()))
+        });
+        match res {
+            Ok((kind, b, plen)) => {
+                if !b || plen != nv {
+                    ctx.rep.expect_fail(&id, "mlpc/honest-rejected", "honest proof on library-made keys rejected (or proof of the wrong length)",
+                        format!("# scheme: mlpc real setup\n# case: {}\n# nv_max={} nv={} kind={}\n# rerun: .build/cargo/debug/pcv-harness C01 --seed {} --only {}\n", id, nv_max, nv, kind, ctx.seed, id));
+                }
+                ctx.rep.count("mlpc/real-setup-transcript");
+                ctx.rep.case(&format!("mlpc real-setup nv_max={} nv={} kind={}", nv_max, nv, kind), Some(format!("mlpc-real/{}/{}/{}", nv_max, nv, kind)));
+            }
+            Err(e) => ctx.rep.expect_fail(&id, "mlpc/in-domain-refused", &format!("in-domain request aborted on library-made keys: {}", e),
+                format!("# scheme: mlpc real setup\n# case: {}\n# nv_max={} nv={}\n# {}\n", id, nv_max, nv, e)),
+        }
+    }
+}
+
+// ------------------------------------------------------------------------------------------------
+// mutation catalogue (C02: statement, C03: proof, C10: single-fault neighbourhood)
+// ------------------------------------------------------------------------------------------------
+
+#[derive(Clone, Copy, PartialEq, Eq)]
+enum Which {
+    Statement,
+    Proof,
+    All,
+}
+
+struct Mut {
+    name: String,
+    claim: ScalarClaim,
+    /// the mutated statement is a FALSE evaluation claim: the verifier must not accept
+    claim_false: bool,
+}
+
+fn other_than(rng: &mut Rng, x: Fr) -> Fr {
+    loop {
+        let y = Fr::rand(rng);
+        if y != x {
+            return y;
+        }
+    }
+}
+
+fn statement_mutations(rng: &mut Rng, t: &Transcript, base: &ScalarClaim) -> Vec<Mut> {
+    let mut v = vec![];
+    let nv = t.nv();
+    {
+        let mut c = base.clone();
+        c.v += rand_nonzero(rng);
+        v.push(Mut { name: "value".into(), claim: c, claim_false: true });
+    }
+    for i in 0..nv {
+        let mut c = base.clone();
+        c.point[i] = other_than(rng, c.point[i]);
+        let f = t.poly.evaluate(&c.point) != c.v;
+        v.push(Mut { name: format!("point-{}", i), claim: c, claim_false: f });
+    }
+    {
+        // commitment of another polynomial q
+        let q = DenseMultilinearExtension::<Fr>::rand(nv, rng);
+        let mut c = base.clone();
+        c.c = commit_scalar(&t.key, &q.to_evaluations());
+        let f = Poly::Dense(q).evaluate(&c.point) != c.v;
+        v.push(Mut { name: "commitment-other-poly".into(), claim: c, claim_false: f });
+    }
+    {
+        // a random group element = the commitment of the constant c/g
+        let mut c = base.clone();
+        c.c = Fr::rand(rng);
+        let f = c.c != c.g * c.v;
+        v.push(Mut { name: "commitment-random".into(), claim: c, claim_false: f });
+    }
+    v
+}
+
+fn proof_mutations(rng: &mut Rng, t: &Transcript, base: &ScalarClaim) -> Vec<Mut> {
+    let mut v = vec![];
+    let nv = t.nv();
+    let delta = rand_nonzero(rng);
+    for i in 0..nv {
+        // element i replaced, true claim (the honest element is the only accepted one) …
+        let mut c = base.clone();
+        c.proofs[i] = other_than(rng, c.proofs[i]);
+        v.push(Mut { name: format!("proof-elem-{}", i), claim: c.clone(), claim_false: false });
+        // … and together with a false value
+        c.v += delta;
+        v.push(Mut { name: format!("proof-elem-{}+value", i), claim: c, claim_false: true });
+        // identity element with a false value
+        let mut c = base.clone();
+        c.proofs[i] = Fr::zero();
+        c.v += delta;
+        v.push(Mut { name: format!("proof-elem-{}-identity+value", i), claim: c, claim_false: true });
+    }
+    // shapes: every shorter list, longer lists; with the true and with a false value
+    for k in 0..nv {
+        let mut c = base.clone();
+        c.proofs.truncate(k);
+        v.push(Mut { name: format!("proof-truncated-{}", k), claim: c.clone(), claim_false: false });
+        c.v += delta;
+        v.push(Mut { name: format!("proof-truncated-{}+value", k), claim: c, claim_false: true });
+    }
+    for extra in 1..=2 {
+        let mut c = base.clone();
+        for _ in 0..extra {
+            c.proofs.push(if coin(rng) { Fr::zero() } else { Fr::rand(rng) });
+        }
+        v.push(Mut { name: format!("proof-extended-{}", extra), claim: c.clone(), claim_false: false });
+        c.v += delta;
+        v.push(Mut { name: format!("proof-extended-{}+value", extra), claim: c, claim_false: true });
+    }
+    {
+        // all-identity proof list with the value that makes C - v·g vanish only for constants
+        let mut c = base.clone();
+        c.proofs = vec![Fr::zero(); nv];
+        c.v += delta;
+        v.push(Mut { name: "proof-all-identity+value".into(), claim: c, claim_false: true });
+    }
+    {
+        // honest prover run on q against commitment(p), claiming q(z)
+        let q = DenseMultilinearExtension::<Fr>::rand(nv, rng);
+        let qe = q.to_evaluations();
+        let mut c = base.clone();
+        c.proofs = proof_scalars(&t.key, &qe, &c.point);
+        let lib = guarded(|| ML::open(&t.ck, &q, &c.point));
+        let same = matches!(&lib, Ok(p) if p.proofs == g2s(&c.proofs));
+        if same {
+            c.v = Poly::Dense(q).evaluate(&c.point);
+            let f = c.v != t.v;
+            v.push(Mut { name: "proof-of-other-poly".into(), claim: c, claim_false: f });
+        }
+    }
+    {
+        // proof for (p, z') replayed at z with the value p(z')
+        let z2: Vec<Fr> = (0..nv).map(|_| Fr::rand(rng)).collect();
+        let mut c = base.clone();
+        c.proofs = proof_scalars(&t.key, &t.evals, &z2);
+        c.v = t.poly.evaluate(&z2);
+        let f = c.v != t.v;
+        v.push(Mut { name: "proof-for-other-point".into(), claim: c, claim_false: f });
+    }
+    v
+}
+
+fn vk_mutations(rng: &mut Rng, t: &Transcript, base: &ScalarClaim) -> Vec<Mut> {
+    let mut v = vec![];
+    let nv = t.nv();
+    let mut c = base.clone();
+    c.g = other_than(rng, c.g);
+    v.push(Mut { name: "vk-g".into(), claim: c, claim_false: false });
+    let mut c = base.clone();
+    c.h = other_than(rng, c.h);
+    v.push(Mut { name: "vk-h".into(), claim: c, claim_false: false });
+    for i in 0..nv {
+        let mut c = base.clone();
+        c.mask[i] = other_than(rng, c.mask[i]);
+        v.push(Mut { name: format!("vk-mask-{}", i), claim: c, claim_false: false });
+    }
+    let mut c = base.clone();
+    c.vnv = nv - 1;
+    v.push(Mut { name: "vk-nv-minus-1".into(), claim: c, claim_false: false });
+    let mut c = base.clone();
+    c.vnv = nv + 1;
+    v.push(Mut { name: "vk-nv-plus-1".into(), claim: c, claim_false: false });
+    let mut c = base.clone();
+    c.mask.pop();
+    v.push(Mut { name: "vk-mask-short".into(), claim: c, claim_false: false });
+    let mut c = base.clone();
+    c.cnv = nv + 3;
+    v.push(Mut { name: "commitment-nv-tag".into(), claim: c, claim_false: false });
+    v
+}
+
+fn mutation_run(ctx: &mut Ctx, prop: &str, which: Which) {
+    let n = match which {
+        Which::Statement => ctx.n(24, 300),
+        Which::Proof => ctx.n(16, 200),
+        Which::All => ctx.n(12, 200),
+    };
+    let max = if ctx.thorough { 10 } else { 5 };
+    let tag = format!("{}/mlpc", prop);
+    for i in 0..n {
+        let id0 = format!("{}/{}", tag, i);
+        if !ctx.selected(&id0) {
+            continue;
+        }
+        let mut rng = rng_for(ctx.seed, &tag, i as u64);
+        let t = match new_transcript(ctx, &mut rng, &id0, i, max) {
+            Some(t) => t,
+            None => continue,
+        };
+        let (c, ps) = match checked_scalars(ctx, &id0, &t) {
+            Some(x) => x,
+            None => continue,
+        };
+        let base = ScalarClaim::of(&t, c, &ps);
+        let mut muts = vec![];
+        if which != Which::Proof {
+            muts.extend(statement_mutations(&mut rng, &t, &base));
+        }
+        if which != Which::Statement {
+            muts.extend(proof_mutations(&mut rng, &t, &base));
+        }
+        if which == Which::All {
+            muts.extend(vk_mutations(&mut rng, &t, &base));
+        }
+        for m in muts {
+            let id = format!("{}/{}", id0, m.name);
+            let out = m.claim.run();
+            let acc = accepted(&out);
+            ctx.ses.ask(&id, m.claim.req(), out);
+            let kind = m.name.trim_end_matches(|ch: char| ch.is_ascii_digit() || ch == '-');
+            ctx.rep.count(&format!("mlpc/mut-{}", kind));
+            if m.claim_false && acc && which != Which::All {
+                ctx.rep.expect_fail(
+                    &id,
+                    &format!("mlpc/false-claim-accepted/{}", m.name),
+                    "verifier accepted a false claim / changed statement",
+                    t.replay(&id, ctx.seed, &format!("mutation {} accepted; mutated claim: {}", m.name, m.claim.req().line())),
+                );
+            }
+            ctx.rep.case(
+                &format!("{} mutation={} false={} accepted={}", t.desc(), m.name, m.claim_false, acc),
+                Some(format!("mlpc/{}/{}/{}", kind, t.nv(), t.kind)),
+            );
+        }
+    }
+}
+
+// ------------------------------------------------------------------------------------------------
+// C08
+// ------------------------------------------------------------------------------------------------
+
+fn c08(ctx: &mut Ctx) {
+    let n = ctx.n(20, 200);
+    let max = if ctx.thorough { 9 } else { 6 };
+    for i in 0..n {
+        let id = format!("C08/mlpc/{}", i);
+        if !ctx.selected(&id) {
+            continue;
+        }
+        let mut rng = rng_for(ctx.seed, "C08/mlpc", i as u64);
+        let real = i % 2 == 0;
+        let (nv_max, nv) = sizes(&mut rng, i / 2, max);
+        // keys: library-made (even cases) or trapdoor (odd cases)
+        let (ck, key): (CK, Option<Trap>) = if real {
+            match real_setup(nv_max, &mut rng).and_then(|rs| guarded(|| ML::trim(&rs.pp, nv))) {
+                Ok((ck, _)) => (ck, None),
+                Err(e) => {
+                    ctx.rep.expect_fail(&id, "mlpc/in-domain-refused", &format!("setup/trim aborted: {}", e), format!("# scheme: mlpc\n# case: {}\n# nv_max={} nv={}\n", id, nv_max, nv));
+                    continue;
+                }
+            }
+        } else {
+            let trap = Trap::random(&mut rng, nv_max);
+            match guarded(|| ML::trim(&trap.params(), nv)) {
+                Ok((ck, _)) => (ck, Some(trap.suffix(nv))),
+                Err(e) => {
+                    ctx.rep.expect_fail(&id, "mlpc/in-domain-refused", &format!("trim aborted: {}", e), format!("# scheme: mlpc\n# case: {}\n# nv_max={} nv={}\n", id, nv_max, nv));
+                    continue;
+                }
+            }
+        };
+        let (p, kind) = gen_poly(&mut rng, nv);
+        let (q, _) = gen_poly(&mut rng, nv);
+        let (pe, qe) = (p.evals(), q.evals());
+        let a = Fr::rand(&mut rng);
+        let sum: Vec<Fr> = pe.iter().zip(&qe).map(|(x, y)| *x + a * y).collect();
+        let r = guarded(|| (p.commit(&ck), q.commit(&ck), dense(nv, sum.clone()).commit(&ck)));
+        let (cp, cq, cs) = match r {
+            Ok(x) => x,
+            Err(e) => {
+                ctx.rep.expect_fail(&id, "mlpc/in-domain-refused", &format!("commit aborted: {}", e), format!("# scheme: mlpc\n# case: {}\n# nv={} kind={}\n", id, nv, kind));
+                continue;
+            }
+        };
+        // equals-spec: the naive Σ over the published key points (double-and-add, no MSM code shared)
+        let naive = crate::props_c08::naive_sum(&ck.powers_of_g[0], &pe).into_affine();
+        if naive != cp.g_product || cp.nv != nv {
+            ctx.rep.expect_fail(&id, "mlpc/commitment-not-key-sum", "commit != Σ evals[x]·powers_of_g[0][x] (or wrong nv tag)",
+                format!("# scheme: mlpc\n# case: {}\n# real_setup={} nv_max={} nv={} kind={}\n# evals={}\n# rerun: .build/cargo/debug/pcv-harness C08 --seed {} --only {}\n", id, real, nv_max, nv, kind, wire::fes(&pe), ctx.seed, id));
+        }
+        // homomorphism on the implementation: commit(p + a·q) = commit(p) + a·commit(q)
+        let lin = (cp.g_product.into_group() + cq.g_product.into_group() * a).into_affine();
+        if lin != cs.g_product {
+            ctx.rep.expect_fail(&id, "mlpc/commitment-not-linear", "commit(p + a·q) != commit(p) + a·commit(q)",
+                format!("# scheme: mlpc\n# case: {}\n# real_setup={} nv={} kind={}\n# p={}\n# q={}\n# a={}\n", id, real, nv, kind, wire::fes(&pe), wire::fes(&qe), wire::fe(&a)));
+        }
+        // equals-model in trapdoor mode
+        if let Some(key) = key {
+            let full = Trap { t: key.t.clone(), g: key.g, h: key.h };
+            ctx.ses.ask(
+                &id,
+                full.pp_args(Req::new("mlpc.commit"))
+                    .arg("supported", wire::nat(nv))
+                    .arg("pnv", wire::nat(nv))
+                    .arg("evals", wire::fes(&pe)),
+                ImplOutcome::Ok(vec![("cnv".into(), Expect::Nat(cp.nv)), ("c".into(), Expect::G1(cp.g_product))]),
+            );
+        }
+        ctx.rep.count(&format!("mlpc/commit-{}", if real { "real-setup" } else { "trapdoor" }));
+        ctx.rep.count(&format!("mlpc/poly-{}", kind));
+        ctx.rep.case(&format!("mlpc commit real_setup={} nv_max={} nv={} kind={} sparse={}", real, nv_max, nv, kind, p.is_sparse()),
+            Some(format!("mlpc/{}/{}/{}", real, nv, kind)));
+    }
+}
+
+// ------------------------------------------------------------------------------------------------
+// C09
+// ------------------------------------------------------------------------------------------------
+
+fn c09(ctx: &mut Ctx) {
+    let max = if ctx.thorough { 8 } else { 6 };
+    let seeds = ctx.n(2, 6);
+    // real setup against the recovered trapdoor, through pairings, and against the model
+    for nv in 1..=max {
+        for s in 0..seeds {
+            let id = format!("C09/mlpc/setup/{}/{}", nv, s);
+            if !ctx.selected(&id) {
+                continue;
+            }
+            let mut rng = rng_for(ctx.seed, "C09/mlpc/setup", (nv * 100 + s) as u64);
+            let rs = match real_setup(nv, &mut rng) {
+                Ok(rs) => rs,
+                Err(e) => {
+                    ctx.rep.expect_fail(&id, "mlpc/setup-refused-or-not-replayable", &format!("setup({}) aborted or its draws could not be replayed: {}", nv, e),
+                        format!("# scheme: mlpc\n# case: {}\n# nv={}\n# {}\n# rerun: .build/cargo/debug/pcv-harness C09 --seed {} --only {}\n", id, nv, e, ctx.seed, id));
+                    continue;
+                }
+            };
+            let mut bad = verify_params(&rs);
+            bad.extend(pairing_relations(&rs.pp, &mut rng, if ctx.thorough { 24 } else { 6 }));
+            if !bad.is_empty() {
+                ctx.rep.expect_fail(&id, "mlpc/setup-not-well-formed", &format!("published parameters are not the eq-tables of one trapdoor: {}", bad.join("; ")),
+                    format!("# scheme: mlpc\n# case: {}\n# nv={}\n# recovered t={}\n# {}\n# rerun: .build/cargo/debug/pcv-harness C09 --seed {} --only {}\n", id, nv, wire::fes(&rs.t), bad.join("\n# "), ctx.seed, id));
+            }
+            // the model's setup with unit generators gives the bare eq-tables of the recovered trapdoor
+            // (the library's elements were just checked to be these scalars times g / h)
+            let tabs = eq_tables(&rs.t);
+            let unit = Trap { t: rs.t.clone(), g: Fr::from(1u64), h: Fr::from(1u64) };
+            ctx.ses.ask(&id, unit.pp_args(Req::new("mlpc.setup")),
+                ImplOutcome::Ok(vec![
+                    ("nv".into(), Expect::Nat(rs.pp.num_vars)),
+                    ("pg".into(), Expect::Raw(wire::fess(&tabs))),
+                    ("ph".into(), Expect::Raw(wire::fess(&tabs))),
+                    ("mask".into(), Expect::Fes(rs.t.clone())),
+                ]));
+            ctx.ses.ask(&id, Req::new("mlpc.tables").arg("c", wire::nat(1)).arg("t", wire::fes(&rs.t)),
+                ImplOutcome::Ok(vec![("tables".into(), Expect::Raw(wire::fess(&tabs)))]));
+            // trim: faithful sub-keys for every supported number of variables, refusal beyond
+            for sup in 0..=nv + 2 {
+                let tid = format!("{}/trim-{}", id, sup);
+                let r = guarded(|| ML::trim(&rs.pp, sup));
+                match (&r, sup <= nv) {
+                    (Ok((ck, vk)), true) => {
+                        let d = nv - sup;
+                        let ok = ck.nv == sup && vk.nv == sup
+                            && ck.g == rs.pp.g && vk.g == rs.pp.g && ck.h == rs.pp.h && vk.h == rs.pp.h
+                            && ck.powers_of_g == rs.pp.powers_of_g[d..].to_vec()
+                            && ck.powers_of_h == rs.pp.powers_of_h[d..].to_vec()
+                            && vk.g_mask_random == rs.pp.g_mask[d..].to_vec();
+                        if !ok {
+                            ctx.rep.expect_fail(&tid, "mlpc/trim-not-subkey", "trim did not return the last `supported` tables / mask elements with the same generators",
+                                format!("# scheme: mlpc\n# case: {}\n# nv={} supported={}\n", tid, nv, sup));
+                        }
+                    }
+                    (Err(_), false) => {}
+                    (Ok(_), false) => ctx.rep.expect_fail(&tid, "mlpc/out-of-range-trim-answered", "trim beyond the parameters returned keys",
+                        format!("# scheme: mlpc\n# case: {}\n# nv={} supported={}\n", tid, nv, sup)),
+                    (Err(e), true) => ctx.rep.expect_fail(&tid, "mlpc/in-domain-refused", &format!("in-range trim aborted: {}", e),
+                        format!("# scheme: mlpc\n# case: {}\n# nv={} supported={}\n", tid, nv, sup)),
+                }
+                ctx.rep.count(if sup <= nv { "mlpc/trim-in-range" } else { "mlpc/trim-out-of-range" });
+            }
+            ctx.rep.count("mlpc/real-setup");
+            ctx.rep.case(&format!("mlpc real setup nv={} seed#{}", nv, s), Some(format!("mlpc/setup/{}/{}", nv, s)));
+        }
+    }
+    // trapdoor-mode parameters (own eq-tables) against the model's setup and trim
+    let n = ctx.n(8, 40);
+    for i in 0..n {
+        let id = format!("C09/mlpc/trapdoor/{}", i);
+        if !ctx.selected(&id) {
+            continue;
+        }
+        let mut rng = rng_for(ctx.seed, "C09/mlpc/trapdoor", i as u64);
+        let nv = 1 + i % max;
+        let trap = Trap::random(&mut rng, nv);
+        let pp = trap.params();
+        let mut exp = vec![
+            ("nv".to_string(), Expect::Nat(pp.num_vars)),
+            ("g".to_string(), Expect::G1(pp.g)),
+            ("h".to_string(), Expect::G2(pp.h)),
+            ("mask".to_string(), Expect::G1s(pp.g_mask.clone())),
+            ("ph".to_string(), Expect::Raw(wire::fess(&trap.ph()))),
+        ];
+        for (j, tb) in pp.powers_of_g.iter().enumerate() {
+            exp.push((format!("pg{}", j), Expect::G1s(tb.clone())));
+        }
+        ctx.ses.ask(&id, trap.pp_args(Req::new("mlpc.setup")), ImplOutcome::Ok(exp));
+        for sup in 0..=nv + 1 {
+            let tid = format!("{}/trim-{}", id, sup);
+            let req = trap.pp_args(Req::new("mlpc.trim")).arg("supported", wire::nat(sup));
+            match guarded(|| ML::trim(&pp, sup)) {
+                Ok((ck, vk)) => match trim_expect(&ck, &vk, &trap.suffix(sup.min(nv))) {
+                    Some(exp) => ctx.ses.ask(&tid, req, ImplOutcome::Ok(exp)),
+                    None => ctx.rep.expect_fail(&tid, "mlpc/trim-not-subkey", "G2 side of the trimmed key is not the sub-table list",
+                        format!("# scheme: mlpc\n# case: {}\n# nv={} supported={}\n", tid, nv, sup)),
+                },
+                Err(a) => {
+                    if sup <= nv {
+                        ctx.rep.expect_fail(&tid, "mlpc/in-domain-refused", &format!("in-range trim aborted: {}", a),
+                            format!("# scheme: mlpc\n# case: {}\n# nv={} supported={}\n", tid, nv, sup));
+                    }
+                    ctx.ses.ask(&tid, req, ImplOutcome::Refuse(a));
+                }
+            }
+            ctx.rep.case(&format!("mlpc trapdoor trim nv={} supported={}", nv, sup), Some(format!("mlpc/trim/{}/{}", nv, sup)));
+        }
+    }
+}
+
+// ------------------------------------------------------------------------------------------------
+// C12
+// ------------------------------------------------------------------------------------------------
+
+fn roundtrip<T: CanonicalSerialize + CanonicalDeserialize>(x: &T) -> Result<Vec<T>, String> {
+    let mut outs = vec![];
+    for c in [Compress::Yes, Compress::No] {
+        let mut bytes = vec![];
+        x.serialize_with_mode(&mut bytes, c).map_err(|e| format!("serialize: {:?}", e))?;
+        if bytes.len() != x.serialized_size(c) {
+            return Err(format!("serialized_size {} != {} bytes written", x.serialized_size(c), bytes.len()));
+        }
+        for v in [Validate::Yes, Validate::No] {
+            let y = T::deserialize_with_mode(&bytes[..], c, v).map_err(|e| format!("deserialize: {:?}", e))?;
+            let mut again = vec![];
+            y.serialize_with_mode(&mut again, c).map_err(|e| format!("re-serialize: {:?}", e))?;
+            if again != bytes {
+                return Err("re-serialization differs".into());
+            }
+            outs.push(y);
+        }
+        // truncated input errs
+        if !bytes.is_empty() && T::deserialize_with_mode(&bytes[..bytes.len() - 1], c, Validate::Yes).is_ok() {
+            return Err("a proper prefix deserialized".into());
+        }
+    }
+    Ok(outs)
+}
+
+fn c12(ctx: &mut Ctx) {
+    let n = ctx.n(6, 30);
+    let max = max_nv(ctx).min(7);
+    for i in 0..n {
+        let id = format!("C12/mlpc/{}", i);
+        if !ctx.selected(&id) {
+            continue;
+        }
+        let mut rng = rng_for(ctx.seed, "C12/mlpc", i as u64);
+        let t = match new_transcript(ctx, &mut rng, &id, i, max) {
+            Some(t) => t,
+            None => continue,
+        };
+        let pp = t.trap.params();
+        let bad = t.v + rand_nonzero(&mut rng);
+        let res: Result<(), String> = (|| {
+            roundtrip(&pp).map_err(|e| format!("universal-params: {}", e))?;
+            let cks = roundtrip(&t.ck).map_err(|e| format!("committer-key: {}", e))?;
+            let vks = roundtrip(&t.vk).map_err(|e| format!("verifier-key: {}", e))?;
+            let cs = roundtrip(&t.comm).map_err(|e| format!("commitment: {}", e))?;
+            let ps = roundtrip(&t.proof).map_err(|e| format!("proof: {}", e))?;
+            for j in 0..vks.len() {
+                let h = guarded(|| ML::check(&vks[j], &cs[j], &t.point, t.v, &ps[j]));
+                let b = guarded(|| ML::check(&vks[j], &cs[j], &t.point, bad, &ps[j]));
+                if h != Ok(true) || b != Ok(false) {
+                    return Err(format!("decisions with deserialized vk/commitment/proof: honest {:?}, tampered {:?}", h, b));
+                }
+                let c2 = guarded(|| t.poly.commit(&cks[j]))?;
+                let p2 = guarded(|| t.poly.open(&cks[j], &t.point))?;
+                if c2.g_product != t.comm.g_product || p2.proofs != t.proof.proofs {
+                    return Err("commit/open with the deserialized committer key differ".into());
+                }
+            }
+            Ok(())
+        })();
+        if let Err(e) = res {
+            ctx.rep.expect_fail(&id, "mlpc/serialization", &e, t.replay(&id, ctx.seed, &e));
+        }
+        ctx.rep.count("mlpc/roundtrip-params+keys+commitment+proof");
+        ctx.rep.case(&format!("{} serialization round trips", t.desc()), Some(format!("mlpc/ser/{}/{}", t.trap.nv(), t.nv())));
+    }
+}
+
+// ------------------------------------------------------------------------------------------------
+// C17
+// ------------------------------------------------------------------------------------------------
+
+/// an out-of-domain request: the property wants a refusal (Err / abort)
+fn ood(ctx: &mut Ctx, id: &str, what: &str, answered: bool, sig: &str, replay: String) {
+    if answered {
+        ctx.rep.expect_fail(id, &format!("mlpc/out-of-domain-answered/{}", sig), what, replay);
+    }
+    ctx.rep.count(&format!("mlpc/ood-{}", sig));
+    ctx.rep.case(&format!("mlpc out-of-domain {} answered={}", sig, answered), Some(format!("mlpc/ood/{}/{}", sig, id)));
+}
+
+fn c17(ctx: &mut Ctx) {
+    // nv = 0 at setup
+    for s in 0..ctx.n(2, 6) {
+        let id = format!("C17/mlpc/setup-zero/{}", s);
+        if !ctx.selected(&id) {
+            continue;
+        }
+        let mut rng = rng_for(ctx.seed, "C17/mlpc/setup-zero", s as u64);
+        let r = guarded(|| ML::setup(0, &mut rng));
+        let out = match &r {
+            Ok(_) => ImplOutcome::Ok(vec![]),
+            Err(a) => ImplOutcome::Refuse(a.clone()),
+        };
+        ctx.ses.ask(&id, Req::new("mlpc.setup").arg("nv", wire::nat(0)).arg("g", wire::nat(5)).arg("h", wire::nat(7)).arg("t", wire::fes::<Fr>(&[])), out);
+        ood(ctx, &id, "setup with zero variables returned parameters", r.is_ok(), "setup-zero-vars",
+            format!("# scheme: mlpc\n# case: {}\n# MultilinearPC::setup(0, rng)\n", id));
+    }
+    let n = ctx.n(10, 80);
+    let max = if ctx.thorough { 8 } else { 5 };
+    for i in 0..n {
+        let id0 = format!("C17/mlpc/{}", i);
+        if !ctx.selected(&id0) {
+            continue;
+        }
+        let mut rng = rng_for(ctx.seed, "C17/mlpc", i as u64);
+        let t = match new_transcript(ctx, &mut rng, &id0, i, max) {
+            Some(t) => t,
+            None => continue,
+        };
+        let nv = t.nv();
+        let (c, ps) = match checked_scalars(ctx, &id0, &t) {
+            Some(x) => x,
+            None => continue,
+        };
+        let base = ScalarClaim::of(&t, c, &ps);
+        // --- trim beyond the parameters
+        for sup in [t.trap.nv() + 1, t.trap.nv() + 2, usize::MAX] {
+            let id = format!("{}/trim-{}", id0, sup);
+            let pp = t.trap.params();
+            let r = guarded(|| ML::trim(&pp, sup));
+            if sup != usize::MAX {
+                let out = match &r { Ok(_) => ImplOutcome::Ok(vec![]), Err(a) => ImplOutcome::Refuse(a.clone()) };
+                ctx.ses.ask(&id, t.trap.pp_args(Req::new("mlpc.trim")).arg("supported", wire::nat(sup)), out);
+            }
+            ood(ctx, &id, "trim beyond the parameters returned keys", r.is_ok(), "trim-too-large", t.replay(&id, ctx.seed, &format!("trim(pp, {})", sup)));
+        }
+        // --- polynomial with a number of variables other than the key's: commit and open
+        let mut others = vec![nv + 1, nv + 2];
+        if nv >= 1 {
+            others.push(nv - 1);
+        }
+        for pnv in others {
+            let q = DenseMultilinearExtension::<Fr>::rand(pnv, &mut rng);
+            let qe = q.to_evaluations();
+            let id = format!("{}/commit-nv-{}", id0, pnv);
+            let r = guarded(|| ML::commit(&t.ck, &q));
+            let out = match &r {
+                Ok(cm) => ImplOutcome::Ok(vec![("cnv".into(), Expect::Nat(cm.nv)), ("c".into(), Expect::G1(cm.g_product))]),
+                Err(a) => ImplOutcome::Refuse(a.clone()),
+            };
+            ctx.ses.ask(&id, t.key_args(Req::new("mlpc.commit")).arg("pnv", wire::nat(pnv)).arg("evals", wire::fes(&qe)), out);
+            ood(ctx, &id, &format!("commit of a polynomial with {} variables under a key for {} variables returned a commitment (D14: the MSM would silently truncate to the shorter operand)", pnv, nv),
+                r.is_ok(), if pnv > nv { "commit-more-vars-than-key" } else { "commit-fewer-vars-than-key" },
+                t.replay(&id, ctx.seed, &format!("MultilinearPC::commit(ck with nv={}, polynomial with num_vars={}) -> Commitment; polynomial evals={}", nv, pnv, wire::fes(&qe))));
+            let id = format!("{}/open-nv-{}", id0, pnv);
+            let zq: Vec<Fr> = (0..pnv).map(|_| Fr::rand(&mut rng)).collect();
+            let r = guarded(|| ML::open(&t.ck, &q, &zq));
+            let out = match &r {
+                Ok(p) => ImplOutcome::Ok(vec![("n".into(), Expect::Nat(p.proofs.len()))]),
+                Err(a) => ImplOutcome::Refuse(a.clone()),
+            };
+            ctx.ses.ask(&id, t.key_args(Req::new("mlpc.open")).arg("pnv", wire::nat(pnv)).arg("evals", wire::fes(&qe)).arg("point", wire::fes(&zq)), out);
+            ood(ctx, &id, "open of a polynomial whose number of variables differs from the key's returned a proof", r.is_ok(), "open-nv-mismatch",
+                t.replay(&id, ctx.seed, &format!("open(ck nv={}, polynomial num_vars={})", nv, pnv)));
+        }
+        // --- point of the wrong length: open
+        for (len, sig) in [(nv - 1, "open-point-too-short"), (nv + 1, "open-point-too-long")] {
+            let id = format!("{}/open-point-{}", id0, len);
+            let mut z = t.point.clone();
+            z.truncate(len);
+            while z.len() < len {
+                z.push(Fr::rand(&mut rng));
+            }
+            let r = guarded(|| t.poly.open(&t.ck, &z));
+            let out = match &r {
+                Ok(p) => {
+                    let mut e = vec![("n".to_string(), Expect::Nat(p.proofs.len()))];
+                    for (j, x) in p.proofs.iter().enumerate() {
+                        e.push((format!("pi{}", j), Expect::G2(*x)));
+                    }
+                    ImplOutcome::Ok(e)
+                }
+                Err(a) => ImplOutcome::Refuse(a.clone()),
+            };
+            ctx.ses.ask(&id, t.key_args(Req::new("mlpc.open")).arg("pnv", wire::nat(nv)).arg("evals", wire::fes(&t.evals)).arg("point", wire::fes(&z)), out);
+            ood(ctx, &id, &format!("open at a point with {} coordinates for a {}-variate polynomial returned a proof (D14: surplus coordinates never read)", len, nv),
+                r.is_ok(), sig, t.replay(&id, ctx.seed, &format!("open at point {}", wire::fes(&z))));
+        }
+        // --- point of the wrong length: check (honest proof, true value)
+        for (len, sig) in [(nv - 1, "check-point-too-short"), (nv + 1, "check-point-too-long")] {
+            let id = format!("{}/check-point-{}", id0, len);
+            let mut cl = base.clone();
+            cl.point.truncate(len);
+            while cl.point.len() < len {
+                cl.point.push(Fr::rand(&mut rng));
+            }
+            let out = cl.run();
+            let acc = accepted(&out);
+            ctx.ses.ask(&id, cl.req(), out);
+            ood(ctx, &id, &format!("check at a point with {} coordinates under a key for {} variables returned true (D14: surplus coordinates never read)", len, nv),
+                acc, sig, t.replay(&id, ctx.seed, &format!("check at point {} -> true", wire::fes(&cl.point))));
+        }
+        // --- proof list of the wrong length
+        for len in [0, nv - 1, nv + 1] {
+            if len == nv {
+                continue;
+            }
+            let id = format!("{}/check-proofs-{}", id0, len);
+            let mut cl = base.clone();
+            cl.proofs.truncate(len);
+            while cl.proofs.len() < len {
+                cl.proofs.push(Fr::zero());
+            }
+            let out = cl.run();
+            let acc = accepted(&out);
+            ctx.ses.ask(&id, cl.req(), out);
+            ood(ctx, &id, "check with a proof list of the wrong length returned true", acc, "check-proof-length",
+                t.replay(&id, ctx.seed, &format!("check with {} proof elements -> true", len)));
+        }
+        // --- the chain the two unchecked inputs of D14 allowed: a polynomial f with nv+1 variables is
+        // "committed" under the nv-key (commitment of its restriction f' to x_nv = 0), f' is opened at
+        // z[..nv], and the verifier is asked about the (nv+1)-coordinate point z: it accepts f'(z[..nv]),
+        // which is not f(z).
+        {
+            let id = format!("{}/oversized-chain", id0);
+            let f = DenseMultilinearExtension::<Fr>::rand(nv + 1, &mut rng);
+            let fe = f.to_evaluations();
+            let z: Vec<Fr> = (0..nv + 1).map(|_| Fr::rand(&mut rng)).collect();
+            let restr = DenseMultilinearExtension::from_evaluations_vec(nv, fe[..1 << nv].to_vec());
+            let r = guarded(|| {
+                let cm = ML::commit(&t.ck, &f);
+                let pr = ML::open(&t.ck, &restr, &z[..nv]);
+                let v = ark_poly::Polynomial::evaluate(&restr, &z[..nv].to_vec());
+                (ML::check(&t.vk, &cm, &z, v, &pr), v)
+            });
+            let truth = ark_poly::Polynomial::evaluate(&f, &z);
+            let bad = matches!(r, Ok((true, v)) if v != truth);
+            if bad {
+                ctx.rep.expect_fail(&id, "mlpc/out-of-domain-answered/oversized-polynomial-chain",
+                    &format!("commit(ck nv={}, f with {} variables) returned a commitment, and check(vk nv={}, that commitment, point with {} coordinates, value != f(point)) returned true", nv, nv + 1, nv, nv + 1),
+                    t.replay(&id, ctx.seed, &format!("f evals={}\n# z={}\n# accepted value={} but f(z)={}", wire::fes(&fe), wire::fes(&z), r.as_ref().map(|x| wire::fe(&x.1).to_string()).unwrap_or_default(), wire::fe(&truth))));
+            }
+            ctx.rep.count("mlpc/ood-oversized-chain");
+            ctx.rep.case(&format!("mlpc oversized-polynomial chain nv={} accepted-false={}", nv, bad), Some(format!("mlpc/ood/chain/{}", nv)));
+        }
+    }
+}
+
+// ------------------------------------------------------------------------------------------------
+// C19
+// ------------------------------------------------------------------------------------------------
+
+fn c19(ctx: &mut Ctx) {
+    let max = if ctx.thorough { 12 } else { 8 };
+    for nv in 1..=max {
+        let id = format!("C19/mlpc/{}", nv);
+        if !ctx.selected(&id) {
+            continue;
+        }
+        let mut rng = rng_for(ctx.seed, "C19/mlpc", nv as u64);
+        let t = match honest(&mut rng, nv, nv) {
+            Ok(t) => t,
+            Err(e) => {
+                ctx.rep.expect_fail(&id, "mlpc/in-domain-refused", &format!("in-domain request aborted: {}", e), format!("# scheme: mlpc\n# case: {}\n# nv={}\n", id, nv));
+                continue;
+            }
+        };
+        let (g1c, g2c) = (t.vk.g.serialized_size(Compress::Yes), t.vk.h.serialized_size(Compress::Yes));
+        let (g1u, g2u) = (t.vk.g.serialized_size(Compress::No), t.vk.h.serialized_size(Compress::No));
+        let mut problems = vec![];
+        if t.proof.proofs.len() != nv {
+            problems.push(format!("proof has {} G2 elements for {} variables", t.proof.proofs.len(), nv));
+        }
+        for (c, g1z, g2z) in [(Compress::Yes, g1c, g2c), (Compress::No, g1u, g2u)] {
+            if t.proof.serialized_size(c) != 8 + nv * g2z {
+                problems.push(format!("proof size {} != 8 + {}·{}", t.proof.serialized_size(c), nv, g2z));
+            }
+            if t.comm.serialized_size(c) != 8 + g1z {
+                problems.push(format!("commitment size {} != 8 + {}", t.comm.serialized_size(c), g1z));
+            }
+        }
+        if !problems.is_empty() {
+            ctx.rep.expect_fail(&id, "mlpc/size-law", &problems.join("; "), t.replay(&id, ctx.seed, &problems.join("; ")));
+        }
+        // the model's proof shape
+        ctx.ses.ask(&id, t.key_args(Req::new("mlpc.open")).arg("pnv", wire::nat(nv)).arg("evals", wire::fes(&t.evals)).arg("point", wire::fes(&t.point)),
+            ImplOutcome::Ok(vec![("n".into(), Expect::Nat(t.proof.proofs.len()))]));
+        ctx.rep.count("mlpc/size-ladder");
+        ctx.rep.case(&format!("mlpc nv={} N={} proof={}B commitment={}B", nv, 1usize << nv, t.proof.serialized_size(Compress::Yes), t.comm.serialized_size(Compress::Yes)),
+            Some(format!("mlpc/size/{}", nv)));
+    }
+}
+
+#[allow(dead_code)]
+fn _unused(_: Bls12_381) {}
